@@ -58,7 +58,7 @@ type sBatch struct {
 
 type sFault struct {
 	Who  int    `json:"who"`
-	Kind string `json:"kind"` // junk | flip | swapped | index | empty
+	Kind string `json:"kind"` // junk | flip | swapped | index | empty | omit | omit-first
 }
 
 func (b sBatch) faultOf(i int) string {
@@ -73,6 +73,21 @@ func (b sBatch) faultOf(i int) string {
 // corruptShares replaces the partial signatures of a result according to kind.
 func corruptShares(pr *requests.SigningProposalBatchPartialSignRequests, kind string, n int) {
 	ps := pr.PartialSigns
+	switch kind {
+	case "omit", "omit-first":
+		// a genuine answer that covers only part of the batch (an old or faulty signer): every share present is valid
+		if len(ps) > 1 {
+			var kept []requests.PartialSign
+			for k := range ps {
+				if (kind == "omit" && k%2 == 0) || (kind == "omit-first" && k > 0) {
+					kept = append(kept, ps[k])
+				}
+			}
+			pr.PartialSigns = kept
+			return
+		}
+		kind = "junk"
+	}
 	switch kind {
 	case "swapped":
 		if len(ps) > 1 { // genuine shares, attached to the wrong messages
